@@ -27,10 +27,10 @@ type channel struct {
 var channels = []channel{
 	{Name: "static-property", A: `class S1 { static $x = 1; static function bump() { self::$x++; return self::$x; } } S1::$x = 5; echo S1::bump();`,
 		B: `class S1 { static $x = 1; static function bump() { self::$x++; return self::$x; } } echo S1::$x, S1::bump();`},
-	{Name: "constant", A: `define('C20_K1', 5); const C20_K2 = 6; echo C20_K1, C20_K2;`,
+	{Name: "constant", A: `define('C20_K1', 5); const C20_K2 = 6; echo C20_K1, C20_K2, defined('C20_K1') ? 'defined' : 'undefined', defined('C20_K2') ? 'defined' : 'undefined';`,
 		B: `echo defined('C20_K1') ? 'defined' : 'undefined', defined('C20_K2') ? 'defined' : 'undefined';`},
-	{Name: "function-and-class-tables", A: `function c20_f() { return 1; } class C20Cls { public $p = 1; } interface C20If {} echo c20_f();`,
-		B: `echo function_exists('c20_f') ? 'F' : 'f', class_exists('C20Cls') ? 'C' : 'c', interface_exists('C20If') ? 'I' : 'i';`},
+	{Name: "function-and-class-tables", A: `function c20_f() { return 1; } class C20Cls { public $p = 1; } interface C20If {} echo c20_f(), function_exists('c20_f') ? 'F' : 'f', class_exists('C20Cls') ? 'C' : 'c', interface_exists('C20If') ? 'I' : 'i', method_exists('C20Cls', 'nope') ? 'M' : 'm', property_exists('C20Cls', 'p') ? 'P' : 'p';`,
+		B: `echo function_exists('c20_f') ? 'F' : 'f', class_exists('C20Cls') ? 'C' : 'c', interface_exists('C20If') ? 'I' : 'i'; class C20Cls { public $q = 2; } echo property_exists('C20Cls', 'p') ? 'P' : 'p', property_exists('C20Cls', 'q') ? 'Q' : 'q';`},
 	{Name: "same-class-name-other-body", A: `class Shape { public $sides = 3; function name() { return 'triangle'; } } $s = new Shape(); echo $s->name(), $s->sides;`,
 		B: `class Shape { public $sides = 4; public $extra = 'e'; function name() { return 'square'; } } $s = new Shape(); echo $s->name(), $s->sides, json_encode($s);`},
 	{Name: "global-variables", A: `$g = 5; function c20_h() { global $g; $g++; return $g; } echo c20_h();`,
